@@ -146,10 +146,21 @@ fn check_lim_interleavings(cfg: &LimCfg, tier: Tier, rep: &mut Report) {
     let mut outcomes: BTreeSet<usize> = BTreeSet::new();
     let mut total = 0u64;
     let mut found: Option<(String, Vec<usize>)> = None;
-    let bounds: Vec<Option<usize>> = tier.pick(vec![Some(0), Some(1), Some(2)], vec![Some(2), None]);
+    // thorough: unbounded only for two threads with at most three operations; larger programs
+    // up to three preemptions (their unbounded schedule space runs into millions)
+    let ops: usize = cfg.programs.iter().map(|p| p.len()).sum();
+    let small = cfg.programs.len() == 2 && ops <= 3;
+    let bounds: Vec<Option<usize>> = tier.pick(vec![Some(0), Some(1), Some(2)], if cfg.kind == "vegas" {
+        // Vegas has the longest atomic protocols: two preemptions for three threads, three for two
+        if small { vec![Some(2), Some(3)] } else { vec![Some(2)] }
+    } else if small {
+        vec![Some(2), None]
+    } else {
+        vec![Some(2), Some(3)]
+    });
     let mut done = None;
     // wall-clock cap per configuration; a capped bound is reported as such
-    ilv::set_deadline(Some(std::time::Instant::now() + std::time::Duration::from_secs(tier.pick(20, 15))));
+    ilv::set_deadline(Some(std::time::Instant::now() + std::time::Duration::from_secs(tier.pick(20, 90))));
     for b in bounds {
         let stats = ilv::explore(&spec, b, tier.pick(100_000, 2_000_000), |x, shared, choices| {
             outcomes.insert(shared.limit());
